@@ -208,7 +208,8 @@ class C19(Prop):
         surfaced = [int(x) for x in re.findall(r"conn\.au=uni:session=\d+:stream=(\d+)", trace0)]
         buf = ""
         if len(surfaced) >= 2:
-            buf = " uni-surfaced=%d order=%s" % (min(len(surfaced), 4), "opening" if surfaced == sorted(surfaced) else
+            n = len(surfaced)
+            buf = " uni-surfaced=%s order=%s" % (n if n <= 4 else "5-7" if n < 8 else "8+", "opening" if surfaced == sorted(surfaced) else
                                                   "reverse" if surfaced == sorted(surfaced, reverse=True) else "mixed")
         if re.search(r"conn\.ab=req:", trace0):
             buf += " request-through-accept_bi"
@@ -1016,8 +1017,27 @@ class C19(Prop):
             m = re.match(r"^s(\d+):" + CONNECT + "$", o)
             if m:
                 keep |= {o, "o" + m.group(1)}
+        # bytes of a peer stream are never taken out of the middle (what is left would be another stream: the shrinker
+        # once walked from a lost buffered stream into `o6 s6:00a7` = a second control stream): a stream goes as a
+        # whole (with the ops of its task), or loses its LAST event
+        def sid_of(o):
+            m = re.match(r"^[osfr](\d+)(:|$)", o)
+            return int(m.group(1)) if m else None
+        sids = []
+        for o in ops:
+            k = sid_of(o)
+            if k is not None and k != 2 and o not in keep and k not in sids:
+                sids.append(k)
+        for k in sids:
+            mine = [i for i, o in enumerate(ops) if sid_of(o) == k or re.match(r"^w%ds?\." % k, o)]
+            if any(ops[i] in keep for i in mine):
+                continue
+            out.append(" ".join(w[:3] + [o for i, o in enumerate(ops) if i not in mine]))
+            evs = [i for i in mine if sid_of(ops[i]) == k and not ops[i].startswith("o")]
+            if evs:
+                out.append(" ".join(w[:3] + ops[:evs[-1]] + ops[evs[-1] + 1:]))
         for i in range(len(ops)):
-            if ops[i] in keep or ops[i].startswith("s2:"):
+            if ops[i] in keep or ops[i].startswith("s2:") or sid_of(ops[i]) is not None:
                 continue
             out.append(" ".join(w[:3] + ops[:i] + ops[i + 1:]))
         return out
